@@ -323,7 +323,7 @@ pub fn run(ctx: &Ctx) -> PropResult {
     let mut all: Vec<&'static IfaceDesc> = vec![ctx.iface("mini"), ctx.iface("qdev2")];
     all.extend(ctx.random_ifaces().into_iter().filter(|i| i.decls.iter().any(|d| d.cmd.ends_with('?'))));
     let shards = 64usize;
-    let cases = ctx.scaled(if ctx.thorough { 1_500 } else { 60 });
+    let cases = ctx.scaled(if ctx.thorough { 4_000 } else { 300 });
     let accs = par::run_shards(shards, ctx.threads, |i| shard(ctx, &all, i, cases), |h| ctx.on_hang(h));
     let mut distinct = HashSet::new();
     let mut fp: BTreeMap<&'static str, u64> = BTreeMap::new();
